@@ -94,6 +94,8 @@ typedef struct sim_inst {
 	int did_textop, did_less, did_bufop, did_more, n_ops;
 	int rejected;            /* the previous action ended in REJECT */
 	int at_eof;              /* the last yylex call returned 0 */
+	int wrap_stop_in_op;     /* yywrap answered 1 while the current op ran */
+	int input_eof;           /* yyinput() reported end of input in this action */
 	int provided_input;      /* EOF action gave the scanner something to read */
 	long lex_calls;
 	int cur_top;             /* index of the top-level op being executed */
